@@ -176,6 +176,13 @@ func c13(args []string) int {
 		name := fmt.Sprintf("exact/min%d-tr%d-ci%d-ch%d-ps%d", t[0], t[1], t[2], t[3], t[4])
 		layers = append(layers, Layer{Name: name, Cfg: cfg, Alphabet: alpha, Depth: d(3, 5)})
 	}
+	// an application write burst in the middle of litestream's own checkpoint (operation LCB), then idle: the
+	// burst is shipped by the checkpoint's own copy, so no top-level sync marks the WAL as "synced since checkpoint"
+	burst := []Layer{
+		{Name: "seeded/min3/burst-in-checkpoint", Cfg: cfgWith(func(c *scn.Config) { c.MinCheckpointPageN = 3 }), Alphabet: strings.Fields("W1 S SW LCB:PASSIVE LCB:PASSIVE:12 LCB:RESTART"), Depth: d(2, 4), Seeds: [][]string{strings.Fields("W3 SW"), strings.Fields("W1 S")}},
+		{Name: "seeded/min5-tr8/burst-in-checkpoint", Cfg: cfgWith(func(c *scn.Config) { c.MinCheckpointPageN = 5; c.TruncatePageN = 8 }), Alphabet: strings.Fields("W1 S SW LCB:PASSIVE LCB:PASSIVE:12"), Depth: d(2, 3), Seeds: [][]string{strings.Fields("W3 SW")}},
+	}
+	layers = append(burst, layers...)
 	layers = append(layers,
 		Layer{Name: "exact/readers/min2", Cfg: cfgWith(func(c *scn.Config) { c.MinCheckpointPageN = 2; c.TruncatePageN = 6 }), Alphabet: alphaRd, Depth: d(4, 6)},
 		Layer{Name: "merged/min3-tr8-ci1", Cfg: cfgWith(func(c *scn.Config) { c.MinCheckpointPageN = 3; c.TruncatePageN = 8; c.CheckpointInterval = 1 }), Alphabet: strings.Fields("W1 W3 WN:9 U D S SW TXB TXC TXR RDB RDE LC:PASSIVE CK:PASSIVE"), Depth: d(6, 10), Merge: true, MaxRuns: int64(d(1500, 60000))},
